@@ -272,6 +272,8 @@ def handle (entry : String) (j : Json) : Except String Json := do
       ("model", outToJson reads (freqCall (fun w => w) t args kw)),
       ("spec", outToJson reads (freqCallSpecFull (fun w => w) t args kw)),
       ("bound", Json.bool (bindParams ["self", "freq"] args kw).isSome),
+      -- where the wrapper finds the frequency object
+      ("where", Json.str (if 1 < args.length then "pos" else if (kwGet "freq" kw).isSome then "kw" else "none")),
       ("ctor_model", Json.bool (bankCtor false t)),
       ("ctor_spec", Json.bool (bankCtor true t))]
   | "dftcall" =>
